@@ -22,7 +22,7 @@ RULE = ('cells = (orthogonal wavelet from all 75 of db*, sym*, coif*, haar; dim;
 ASSUMPTIONS = ['float64', 'tolerance scaled by the orthonormality defect of the PyWavelets taps themselves']
 TIMEOUT = {'quick': 900, 'thorough': 3000}
 WORKER_BUDGET = {'quick': 600, 'thorough': 2400}
-MIN_HELD = {'quick': 300, 'thorough': 1500}
+MIN_HELD = {'quick': 300, 'thorough': 8696}
 
 
 def ortho_wavelets():
